@@ -92,6 +92,18 @@ def noTrailEndsB (g : Graph) (i : Nat) (L : Lex) (F : Nat) (ends : List Nat) : B
     | _, _ => true
   | none => true
 
+/-- token of the separator of repetition node `i` (0 when `i` is not such a node) -/
+def sepTok (g : Graph) (i : Nat) : Nat :=
+  match g.get i with
+  | some nd =>
+    (match nd.sep with
+     | some s =>
+       (match g.get s with
+        | some ns => ns.tok
+        | none => 0)
+     | none => 0)
+  | none => 0
+
 /-- bounded evaluation of `NoTrailingSep g i L`: all start positions `0 … |input|`, fuel `F` -/
 def noTrailScanB (g : Graph) (i : Nat) (L : Lex) (F : Nat) : Bool :=
   match g.get i with
